@@ -50,14 +50,21 @@ func elBytes[E any](v []E) []byte {
 
 func dataPtr[E any](s []E) uintptr { return uintptr(unsafe.Pointer(unsafe.SliceData(s))) }
 
+type recorded struct {
+	name string
+	fn   func() []byte
+	ref  []byte
+}
+
 type world struct {
-	c      *mon.Ctx
-	race   bool
-	clock  atomic.Int64
-	procs  []int
-	pi     int
-	slices sync.Map
-	rng    *gen.Rng
+	entries []recorded
+	c       *mon.Ctx
+	race    bool
+	clock   atomic.Int64
+	procs   []int
+	pi      int
+	slices  sync.Map
+	rng     *gen.Rng
 }
 
 func (w *world) size(q, t int) int {
@@ -102,6 +109,7 @@ func (w *world) shared(name string, args []any, fn func() []byte) {
 		c.Eval("purity", len(args))
 		return ok
 	}
+	w.entries = append(w.entries, recorded{name, fn, ref})
 	pure := checkArgs("the first call")
 	for rep := 2; rep <= 3; rep++ {
 		var r []byte
@@ -189,6 +197,34 @@ func head(b []byte) []byte {
 		return b[:12]
 	}
 	return b
+}
+
+// recheck calls every recorded entry point once more, after all the other calls of the run (which went through the
+// shared scratch pools, caches and lazily initialised globals): the result must still be the solo reference.
+func (w *world) recheck(phase string) {
+	for _, e := range w.entries {
+		var r []byte
+		if w.c.Guard(e.name+"/panic", func() string { return "re-check " + phase }, func() { r = e.fn() }) {
+			continue
+		}
+		w.c.Check("recheck", e.name+"/result-changed-after-other-calls", bytes.Equal(r, e.ref), func() string {
+			return fmt.Sprintf("%s: called again %s, returned %x…, its first result was %x…", e.name, phase, head(r), head(e.ref))
+		})
+	}
+	w.c.Class("recheck/" + phase)
+}
+
+// hostile returns dst and msg carved out of ONE buffer (dst first, msg right behind it, then poison): dst has
+// spare capacity that overlaps msg, so a callee appending to dst would overwrite the message. The whole buffer is
+// returned too, for the purity snapshot.
+func hostile(dst, msg []byte) (d, m, whole []byte) {
+	whole = make([]byte, len(dst)+len(msg)+32)
+	copy(whole, dst)
+	copy(whole[len(dst):], msg)
+	for i := len(dst) + len(msg); i < len(whole); i++ {
+		whole[i] = 0xA5
+	}
+	return whole[:len(dst)], whole[len(dst) : len(dst)+len(msg)], whole
 }
 
 // ---- polynomial pool ----
@@ -345,11 +381,13 @@ func main() {
 				}
 			}()
 			cr.fn(c, w)
+			w.recheck("after the calls of " + cr.name)
 		}()
 	}
 	if mon.Selected("small-fields") {
 		smallFields(c, w)
 	}
+	w.recheck("at the end of the run")
 	c.Extra("gomaxprocs_rotation", w.procs)
 	c.Finish()
 }
